@@ -98,7 +98,8 @@ class StereoCondensedReactionGraph(StereoMolGraph, CondensedReactionGraph):
             self.atoms, self.atom_types, s_color_array)}
 
         return any(
-                vf2pp_all_isomorphisms(
+                self._same_bond_changes(other, mapping)
+                for mapping in vf2pp_all_isomorphisms(
                     self,
                     other,
                     atom_labels=(s_colors, o_colors),
